@@ -96,10 +96,10 @@ let run_ms (a : string list) : string =
     String.sub r 1 (String.length r - 1)
 
 
-(* ---- replace protocol: CR f:<cur>:<old> s:<ver>:<c1,c2|->:<tail> ... p:<o,e,k<j>,..|-> / s:... p:... *)
+(* ---- replace protocol: CR f:<cur>:<old>:<tmp> s:<ver>:<c1,c2|->:<tail> ... p:<o,e,k<j>,..|-> / s:... p:... *)
 let file_str (f : file option) : string =
   match f with None -> "-" | Some x -> Printf.sprintf "%d.%d.%d" (int_of_n x.f_ver) (int_of_n x.f_bytes) (int_of_n x.f_total)
-let fs_str (fs : fsys) : string = Printf.sprintf "cur:%s old:%s" (file_str fs.cur) (file_str fs.old)
+let fs_str (fs : fsys) : string = Printf.sprintf "cur:%s old:%s tmp:%s" (file_str fs.cur) (file_str fs.old) (file_str fs.tmp)
 let parse_file (t : string) : file option =
   if t = "-" then None else
     match String.split_on_char '.' t with
@@ -109,7 +109,8 @@ let parse_outcome (t : string) : outcome =
   if t = "o" then OOk else if t = "e" then OErr
   else OKill (n_of_int (int_of_string (String.sub t 1 (String.length t - 1))))
 let sysop_str (o : sysop) : string =
-  match o with SAccess -> "A" | SRename -> "R" | SOpen -> "O" | SClose -> "C" | SWrite k -> "W" ^ string_of_int (int_of_n k)
+  match o with SUnlink -> "U" | SAccessT -> "B" | SAccess -> "A" | SRename -> "R" | SRenameT -> "T" | SOpen -> "O" | SClose -> "C"
+             | SWrite k -> "W" ^ string_of_int (int_of_n k)
 let result_str (r : result) : string = match r with Done true -> "ok" | Done false -> "err" | Dead -> "dead"
 let rec split_on (sep : string) (l : string list) : string list list =
   match l with
@@ -121,7 +122,8 @@ let run_cr (a : string list) : string =
   | [] -> "?"
   | f0 :: rest ->
     let fs0 = (match String.split_on_char ':' f0 with
-        | [_; c; o] -> { cur = parse_file c; old = parse_file o }
+        | [_; c; o; t] -> { cur = parse_file c; old = parse_file o; tmp = parse_file t }
+        | [_; c; o] -> { cur = parse_file c; old = parse_file o; tmp = None }
         | _ -> empty_fs) in
     let sessions = List.map (fun toks ->
         let saves = List.filter_map (fun t ->
